@@ -513,6 +513,9 @@ class Interp:
             yield from self.exec_block(node.orelse, frame)
             return
         it = self.eval(node.iter, frame)
+        if type(it).__name__ == "RangeVal" and it._concrete() and len(range(it.start, it.stop, it.step)) > self.hooks.get("max_unroll_for", 24):
+            # e.g. `for _ in range(self.max_attempts)` with the default 10000: no point in starting to unroll it
+            raise Unsupported(f"for loop at line {node.lineno} over {len(range(it.start, it.stop, it.step))} iterations needs an invariant")
         broke = False
         n_iter = 0
         for v in self.iterate(it):
